@@ -334,7 +334,7 @@ def codec_leaf(m, cfg, f, args, t):
     if name.startswith('is_nil_'):
         return Atom('is_nil(%s)' % vname(m, st, args[0]), {'s': 'bool', 'k': 'bool'})
     if name.startswith('nil_'):
-        return Atom('nil_is_some(%s)' % name, ty_from_str('std::option::Option<mcv_schemas::Opaque>'))
+        return Atom('nil_is_some(%s)' % name, ty_from_str('std::option::Option<%s::Opaque>' % (f.get('rpath') or f.get('path')).split('::')[0]))
     if name.startswith('dec_'):
         return decode_leaf_custom(m, cfg, f, args, t, name)
     return NotImplemented
